@@ -134,6 +134,15 @@ def _strip_chain(en, expr):
     chain = []
     for _ in range(10):
         expr = _deref(en, expr)
+        if isinstance(expr, ast.Subscript) and isinstance(
+                expr.slice, ast.Slice):
+            # the same peeling spelled with run lengths and one slice
+            from .paths import _fold_strip_slice
+            full = en.expand(expr)
+            folded = _fold_strip_slice(full) if isinstance(
+                full, ast.Subscript) else None
+            if folded is not None:
+                expr = folded
         mc = method_call(expr)
         if mc and mc[1] in ('lstrip', 'rstrip', 'strip') and \
                 len(expr.args) == 1 and is_const(expr.args[0]):
